@@ -739,7 +739,8 @@ func writeSwitchCaseOverUnion(w *formatting.IndentedWriter, unionType *dsl.Gener
 }
 
 func typeConversionCallable(t dsl.Type) string {
-	switch t := t.(type) {
+	// the target of a conversion may be named through an alias of a primitive
+	switch t := dsl.GetUnderlyingType(t).(type) {
 	case *dsl.SimpleType:
 		switch t := t.ResolvedDefinition.(type) {
 		case dsl.PrimitiveDefinition:
